@@ -251,6 +251,7 @@ type gen struct {
 	nextId int
 	pool   []*Spec
 	budget int
+	noGs   bool // no instances backed by Go structs (their InitHash needs the context of the calling goroutine)
 }
 
 func newGen(r *lib.Rng) *gen { return &gen{r: r, nextId: 100, budget: 40 + r.Intn(60)} }
@@ -445,6 +446,10 @@ func (g *gen) ptype(depth int, must bool) *Spec {
 func (g *gen) rich(depth int) *Spec {
 	if g.r.Chance(1, 8) {
 		return g.ptype(0, true)
+	}
+	// an instance backed by a Go struct, every optional attribute at its default with probability 1/2
+	if !g.noGs && g.r.Chance(1, 10) {
+		return g.gostruct(depth)
 	}
 	switch g.r.Intn(12) {
 	case 0:
